@@ -4,5 +4,8 @@ CONSTANT StreamId
 QueriesDef == StreamsDef[StreamId]
 \* one environment script per distinct state (the first, i.e. a shortest, behaviour reaching it)
 Emit == PrintT(<<"REPLAY", ToJson([op |-> "conn", stream |-> StreamId, queries |-> Queries, script |-> script,
-                                   answers |-> Answers(1, Len(Queries), NoneV)])>>)
+                                   answers |-> Answers(1, Len(Queries), NoneV),
+                                   \* Serial Notify PDUs the specification's server has written in this state (a lower bound for the
+                                   \* real one once it is idle: pending notifications collapse into one but never into none)
+                                   notifies_out |-> Len(SelectSeq(out, LAMBDA e : e[1] = "notify")), closed |-> closed])>>)
 =============================================================================
